@@ -16,6 +16,8 @@ mod utils;
 /// with default encoding instructions
 pub struct Typescript {
     config: Config,
+    /// whether the module being generated says EXTENSIBILITY IMPLIED
+    extensibility_implied: bool,
 }
 
 #[derive(Debug, Default)]
@@ -28,7 +30,10 @@ impl Backend for Typescript {
     const FILE_EXTENSION: &'static str = ".ts";
 
     fn from_config(config: Self::Config) -> Self {
-        Self { config }
+        Self {
+            config,
+            extensibility_implied: false,
+        }
     }
 
     fn config(&self) -> &Self::Config {
@@ -45,6 +50,8 @@ impl Backend for Typescript {
     ) -> Result<GeneratedModule, GeneratorError> {
         if let Some(module_ref) = tlds.first().and_then(|tld| tld.get_module_header()) {
             let module = module_ref.borrow();
+            self.extensibility_implied =
+                module.extensibility_environment == ExtensibilityEnvironment::Implied;
             let namespace = to_jer_identifier(&module.name);
             let imports = module
                 .imports
